@@ -215,6 +215,27 @@ CHECKS = [
               "~430k events, one history of 1200 entries",
          technique="TLA+ model checking (TLC) + TLC-generated schedules forced on pkg/wal through the gate scheduler + TLC trace "
                    "validation of recorded histories"),
+    dict(id="C15",
+         text="Concurrent.tla (shared stores at object level, store discipline WriteVerdict, result operators BundleAlone / "
+              "AloneEffect / ResultAlone / PortionOK) is model-checked with one program per client (MC_Concurrent.tla: upload, "
+              "split upload + commit of an own diamond, download, label set; one step = one store call; every assignment of "
+              "operations to 3 clients, 4 clients in thorough): discipline, NoFailure, EachResultAsAlone, AnyOrder (final state = "
+              "the operations run alone in every order), progress. Seeded random workloads of 2..16 real operations are started "
+              "behind a barrier over shared in-memory stores: every operation must succeed, every resulting bundle is read back "
+              "(DownloadMetadata + full Publish, byte for byte against the source tree), every download / label / diamond is "
+              "compared, the projection of all stores (incl. every blob) must equal the union of the per-operation states, and the "
+              "recorded store-call trace is validated event by event by ConcurrentTrace.tla. The same workloads run from a "
+              "harness built with -race: a data race report with a datamon frame is a violation (race/<top datamon frame>)",
+         design_ref="§3 C15",
+         note="The conjunct 'no data race occurs in the process' is decided by the Go race detector, not by TLA+ (no false "
+              "positives; races that did not happen on the explored schedules are missed). Trusted: TLC, the in-memory object "
+              "store (linearizes calls under one mutex; checked against ObjectStore.tla in C16), the harness' projection and "
+              "independent BLAKE2b tree keys. Names are disjoint by construction (two commits of the SAME diamond belong to "
+              "C12). Result-as-alone is judged against declarative operators, not a second execution (timestamps, generated ids "
+              "not compared). Bounds: quick 6 plain + 6 race workloads x seed; thorough 240 plain + 60 race workloads, "
+              "GOMAXPROCS 2 and 16. A child crash that does not reproduce when the workload is re-run alone is exit 2, not a verdict",
+         technique="TLA+ model checking (TLC) + TLC trace validation of recorded concurrent executions + result/projection "
+                   "comparison + Go race detector"),
     dict(id="C16",
          text="ObjectStore.tla is model-checked exhaustively over a hostile key set (pagination = one-page listing, sorted, "
               "duplicate free, exclusive winner); TLC-generated operation histories are replayed on the real localfs store with "
